@@ -114,6 +114,8 @@ type frame struct {
 	panic            interface{}
 	phitemps         []value // temporaries for parallel phi assignment
 	cur              ssa.Instruction
+	specBorn         int                // speculation depth at which the frame was created
+	mergedPhis       map[*ssa.Phi]value // phi values joined by tryMerge for the next block entry
 }
 
 func (fr *frame) get(key ssa.Value) value {
@@ -149,7 +151,7 @@ func (fr *frame) runDefer(d *deferred) {
 			// Deferred call created a new state of panic.
 			r := recover()
 			switch r.(type) {
-			case pathEnd, abandonPanic, enginePanic:
+			case pathEnd, abandonPanic, enginePanic, specAbort:
 				panic(r)
 			}
 			fr.panicking = true
@@ -244,6 +246,9 @@ func visitInstr(fr *frame, instr ssa.Instruction) continuation {
 		return kReturn
 
 	case *ssa.RunDefers:
+		if fr.defers != nil && fr.i.x.spec > fr.specBorn {
+			panic(specAbort{"deferred calls run in a speculative arm"})
+		}
 		fr.runDefers()
 
 	case *ssa.Panic:
@@ -264,7 +269,12 @@ func visitInstr(fr *frame, instr ssa.Instruction) continuation {
 		case bool:
 			cond = c
 		case sym:
-			cond = fr.i.x.decide(c.t)
+			var merged bool
+			var k continuation
+			cond, merged, k = fr.i.x.decideBranch(c.t, fr, instr)
+			if merged {
+				return k
+			}
 		}
 		if cond {
 			succ = 0
@@ -277,6 +287,9 @@ func visitInstr(fr *frame, instr ssa.Instruction) continuation {
 		return kJump
 
 	case *ssa.Defer:
+		if fr.i.x.spec > fr.specBorn {
+			panic(specAbort{"defer in a speculative arm"})
+		}
 		fn, args := prepareCall(fr, &instr.Call)
 		defers := &fr.defers
 		if into := fr.get(instr.DeferStack); into != nil {
@@ -301,11 +314,19 @@ func visitInstr(fr *frame, instr ssa.Instruction) continuation {
 			// new
 			addr = new(value)
 			fr.env[instr] = addr
+			*addr = zero(mustDeref(instr.Type()))
+			fr.i.x.markFresh(addr)
 		} else {
 			// local
 			addr = fr.env[instr].(*value)
+			if fr.i.x.spec > 0 {
+				fr.i.x.onStore(addr)
+			}
+			*addr = zero(mustDeref(instr.Type()))
+			if fr.i.x.spec > 0 && fr.i.x.freshCells[addr] {
+				fr.i.x.markFreshVal(*addr)
+			}
 		}
-		*addr = zero(mustDeref(instr.Type()))
 
 	case *ssa.MakeSlice:
 		ncap := asInt64(fr.i.x.concretize(fr.get(instr.Cap), "make cap"))
@@ -321,10 +342,15 @@ func visitInstr(fr *frame, instr ssa.Instruction) continuation {
 		for i := range slice {
 			slice[i] = zero(tElt)
 		}
+		fr.i.x.markFreshSlice(slice)
 		fr.env[instr] = slice[:nlen]
 
 	case *ssa.MakeMap:
-		fr.env[instr] = makeMap(instr.Type().Underlying().(*types.Map).Key(), 0)
+		mm := makeMap(instr.Type().Underlying().(*types.Map).Key(), 0)
+		if fr.i.x.spec > 0 {
+			fr.i.x.freshMaps[mm.(*omap)] = true
+		}
+		fr.env[instr] = mm
 
 	case *ssa.Range:
 		fr.env[instr] = rangeIter(fr.i.x, fr.get(instr.X), instr.X.Type())
@@ -381,6 +407,7 @@ func visitInstr(fr *frame, instr ssa.Instruction) continuation {
 		if m == nil {
 			panic("assignment to entry in nil map")
 		}
+		fr.i.x.specMapWrite(m)
 		m.insert(fr.i.x, fr.get(instr.Key), fr.get(instr.Value))
 
 	case *ssa.TypeAssert:
@@ -473,6 +500,7 @@ func callSSA(i *interpreter, caller *frame, callpos token.Pos, fn *ssa.Function,
 		fn:     fn,
 	}
 	x := i.x
+	fr.specBorn = x.spec
 	fr.caller = caller
 	if fn.Parent() == nil {
 		name := fn.String()
@@ -480,6 +508,9 @@ func callSSA(i *interpreter, caller *frame, callpos token.Pos, fn *ssa.Function,
 			return r
 		}
 		if ext := externals[name]; ext != nil {
+			if x.spec > 0 && !pureExternal(name) {
+				panic(specAbort{"impure stub " + name})
+			}
 			x.stubs[name] = true
 			return ext(fr, args)
 		}
@@ -518,6 +549,7 @@ func callSSA(i *interpreter, caller *frame, callpos token.Pos, fn *ssa.Function,
 	for i, l := range fn.Locals {
 		fr.locals[i] = zero(mustDeref(l.Type()))
 		fr.env[l] = &fr.locals[i]
+		x.markFresh(&fr.locals[i])
 	}
 	for i, p := range fn.Params {
 		fr.env[p] = args[i]
@@ -560,7 +592,7 @@ func runFrame(fr *frame) {
 		}
 		r := recover()
 		switch r.(type) {
-		case pathEnd, abandonPanic, enginePanic:
+		case pathEnd, abandonPanic, enginePanic, specAbort:
 			panic(r)
 		}
 		fr.panicking = true
@@ -599,6 +631,14 @@ func executePhis(fr *frame) []ssa.Instruction {
 	// Inv: 0 <= firstNonPhi; every block contains a non-phi.
 
 	nonPhis := fr.block.Instrs[firstNonPhi:]
+	if fr.mergedPhis != nil {
+		mp := fr.mergedPhis
+		fr.mergedPhis = nil
+		for phi, v := range mp {
+			fr.env[phi] = v
+		}
+		return nonPhis
+	}
 	if firstNonPhi > 0 {
 		phis := fr.block.Instrs[:firstNonPhi]
 		// Execute parallel assignment of phis.
